@@ -481,6 +481,10 @@ class SubscriptionsManagerBase:
         dispatch_identifier = _mk_dispatch_identifier(reference_parameters, path_suffix)
         with self._subscriptions.lock:
             subscription = self._subscriptions.dispatch_identifier.get_one(dispatch_identifier, allow_none=True)
+        if subscription is not None and (subscription.unsubscribed_at is not None or not subscription.is_valid):
+            # unsubscribed, expired, ended or failed subscriptions are only waiting for housekeeping to delete them,
+            # for the subscriber they no longer exist.
+            subscription = None
         if subscription is None:
             self._logger.warning(  # noqa: PLE1205
                 '{}: unknown Subscription identifier "{}" from {}',
